@@ -252,6 +252,14 @@ class Code(enum.IntEnum):
 class Word(str, enum.Enum):
     ON = "on"
     NUM = "12"
+class Sep(enum.Enum):
+    # values that differ by edge whitespace only, and values that are a Python literal between blanks: the text IS the value
+    COMMA = ","
+    COMMA_SPACE = ", "
+    TAB_X = "\\tx"
+    X = "x"
+    PADDED_TUPLE = " (1, 2) "
+    NEWLINE_END = "end\\n"
 """
 
 
@@ -263,7 +271,7 @@ def _enum_child(_job):
     exec(ENUM_SRC, ns)
     bad = []
     n = 0
-    for cname in ("Version", "Level", "Ratio", "Code", "Word"):
+    for cname in ("Version", "Level", "Ratio", "Code", "Word", "Sep"):
         E = ns[cname]
         for m in E:
             text = str(m.value)
